@@ -87,6 +87,7 @@ func init() {
 			{"buffer", c11Buffer}, {"channel", c11Channel}, {"chancaster", c11Caster}, {"chanpubsub", c11PubSub},
 			{"exclusive", c11Exclusive}, {"workers", c11Workers}, {"worker", c11Worker}, {"notifier", c11Notifier},
 			{"waitcond", c11WaitCond}, {"context", c11Context},
+			{"bufferbatch", c11BufferBatch}, {"combinerace", c11CombineRace}, {"callable", c11Callable},
 		}
 		only := h.p("only", "")
 		for r := 0; r < rounds; r++ {
@@ -130,6 +131,9 @@ func c11Buffer(h *hctx, k int) {
 		_ = b.SetCleanerConfig(CleanerConfig{
 			Cleaner: FixedBufferCleaner(48, 24, func(n FixedBufferCleanerNotification) {
 				c11sinkV.Add(int64(n.Size + n.Trim + len(n.Offsets)))
+				for i := range n.Offsets { // the notification is the callback's own value
+					n.Offsets[i] = -1
+				}
 			}),
 			Cooldown: time.Duration(rs[0].Intn(3)) * time.Millisecond,
 		})
@@ -270,8 +274,10 @@ func c11Buffer(h *hctx, k int) {
 				case 0:
 					c11sinkV.Add(int64(b.Size()))
 				case 1:
-					for _, v := range b.Slice() {
+					sl := b.Slice() // documented to be a copy: the caller may scribble over it
+					for i, v := range sl {
 						c11read(v)
+						sl[i] = nil
 					}
 				case 2:
 					c11sinkV.Add(int64(b.CleanerConfig().Cooldown))
@@ -362,8 +368,10 @@ func c11Channel(h *hctx, k int) {
 				case x < 82:
 					_ = c.Rollback()
 				case x < 94:
-					for _, v := range c.Buffer() {
+					bf := c.Buffer() // a new copy per the doc: the caller may scribble over it
+					for i, v := range bf {
 						c11read(v)
+						bf[i] = nil
 					}
 				default:
 					select {
@@ -552,6 +560,7 @@ func c11Exclusive(h *hctx, k int) {
 	for i := 0; i < 6; i++ {
 		r := rs[i]
 		g.run(func() {
+			opts := make([]ExclusiveOption, 0, 8)
 			for j := 0; j < k/3; j++ {
 				key := r.Intn(nkeys)
 				val := c11new(r)
@@ -587,9 +596,13 @@ func c11Exclusive(h *hctx, k int) {
 					}))
 					c11read(o.Result)
 				default:
-					o := <-e.CallWithOptions(ExclusiveKey(key), ExclusiveValue(work),
+					opts = append(opts[:0], ExclusiveKey(key), ExclusiveValue(work),
 						ExclusiveRateLimit(ctx, time.Duration(1+r.Intn(200))*time.Microsecond))
-					c11read(o.Result)
+					ch := e.CallWithOptions(opts...)
+					for i := range opts { // the caller's slice: overwritten while the work may still be running
+						opts[i] = nil
+					}
+					c11read((<-ch).Result)
 				}
 			}
 		})
@@ -836,6 +849,9 @@ func c11Context(h *hctx, k int) {
 			others = append(others, nil)
 		}
 		comb := CombineContext(base, others...)
+		for j := range others { // the caller's slice: overwritten right after the call
+			others[j] = nil
+		}
 		for j := 0; j < n; j++ {
 			c, d := cancels[j], time.Duration(r.Intn(100))*time.Microsecond
 			g.run(func() { time.Sleep(d); c() })
@@ -851,6 +867,9 @@ func c11Context(h *hctx, k int) {
 			cctxs[j], ccancels[j] = context.WithCancel(context.WithValue(context.Background(), ckey{}, c11new(r)))
 		}
 		conf, cancelConf := ConflatedContext(cctxs...)
+		for j := range cctxs {
+			cctxs[j] = nil
+		}
 		for j := 0; j < m; j++ {
 			c, d := ccancels[j], time.Duration(r.Intn(100))*time.Microsecond
 			g.run(func() { time.Sleep(d); c() })
@@ -874,4 +893,192 @@ func c11Context(h *hctx, k int) {
 		cancelBase()
 	}
 	h.count("c11_context_iters", k/4)
+}
+
+// ---------------------------------------------------------------------------------------------------------------
+// Buffer.Put with a caller-OWNED, reused batch slice (spare capacity), put while the buffer is empty
+// ---------------------------------------------------------------------------------------------------------------
+// The library must not retain the caller's memory: after Put returns, the producer keeps reading its batch (and the
+// spare capacity behind it), then refills and re-puts it, while a consumer drains and commits (so the cleaner reclaims
+// the prefix) and another producer appends. Besides the race detector, the content is checked (MONITOR line).
+func c11BufferBatch(h *hctx, k int) {
+	rs := c11rngs(h, 6)
+	b := new(Buffer)
+	_ = b.SetCleanerConfig(CleanerConfig{Cleaner: DefaultCleaner, Cooldown: time.Duration(rs[0].Intn(2)) * time.Millisecond})
+	cons, err := b.NewConsumer()
+	if err != nil {
+		h.t.Fatal(err)
+	}
+	ctx, cancel := context.WithTimeout(context.Background(), 8*time.Second)
+	defer cancel()
+	stop := make(chan struct{})
+	var g, prods c11group
+	var drained, clobbered atomic.Int64
+	iters := k / 2 // per round; the number of rounds already grows with k
+	if iters > 150 {
+		iters = 150
+	}
+	g.run(func() { // drain: every value is committed at once, so the buffer is regularly empty
+		for {
+			select {
+			case <-stop:
+				return
+			default:
+			}
+			gctx, gcancel := context.WithTimeout(ctx, time.Millisecond)
+			v, err := cons.Get(gctx)
+			gcancel()
+			if err == nil {
+				c11read(v)
+				drained.Add(1)
+				_ = cons.Commit()
+			} else if err != context.DeadlineExceeded {
+				return
+			}
+		}
+	})
+	for p := 0; p < 2; p++ {
+		r := rs[1+p]
+		prods.run(func() {
+			batch := make([]interface{}, 0, 8) // reused for every Put; cap > len always
+			mine := make([]*c11val, 0, 8)
+			for i := 0; i < iters; i++ {
+				// wait (briefly) for the buffer to be empty
+				for w := 0; w < 40 && b.Size() != 0; w++ {
+					time.Sleep(25 * time.Microsecond)
+				}
+				n := 1 + r.Intn(4)
+				batch, mine = batch[:0], mine[:0]
+				for j := 0; j < n; j++ {
+					v := c11new(r)
+					batch = append(batch, v) // refill: WRITES the caller's memory
+					mine = append(mine, v)
+				}
+				if err := b.Put(ctx, batch...); err != nil {
+					return
+				}
+				// keep reading the batch and its spare capacity while consumer, cleaner and the other producers work
+				for round := 0; round < 6; round++ {
+					full := batch[:cap(batch)]
+					for j := range full {
+						x, _ := full[j].(*c11val)
+						if (j < n && x != mine[j]) || (j >= n && full[j] != nil) {
+							clobbered.Add(1)
+						}
+					}
+					time.Sleep(time.Duration(20+r.Intn(60)) * time.Microsecond)
+				}
+				for j := range batch[:cap(batch)] { // wipe the whole array (the caller's own writes)
+					batch[:cap(batch)][j] = nil
+				}
+			}
+		})
+	}
+	r := rs[4]
+	prods.run(func() { // single literal values from a third goroutine (appends behind whatever is buffered)
+		for i := 0; i < iters; i++ {
+			if b.Put(ctx, c11new(r)) != nil {
+				return
+			}
+			time.Sleep(time.Duration(50+r.Intn(150)) * time.Microsecond)
+		}
+	})
+	prods.wg.Wait()
+	close(stop)
+	g.wg.Wait()
+	_ = cons.Rollback()
+	_ = b.Close()
+	<-b.Done()
+	if n := clobbered.Load(); n != 0 {
+		h.line("MONITOR C11 Buffer.Put: the library wrote into the caller's batch slice (%d observations, seed %d)", n, h.seed)
+	}
+	h.count("c11_bufferbatch_drained", int(drained.Load()))
+}
+
+// ---------------------------------------------------------------------------------------------------------------
+// CombineContext with many others, one of the first of which is cancelled WHILE the call wires them up
+// ---------------------------------------------------------------------------------------------------------------
+func c11CombineRace(h *hctx, k int) {
+	r := c11rngs(h, 1)[0]
+	iters := k / 2
+	if iters > 150 {
+		iters = 150
+	}
+	for it := 0; it < iters; it++ {
+		n := 8 + r.Intn(57)
+		ctxs := make([]context.Context, n)
+		cancels := make([]context.CancelFunc, n)
+		for i := range ctxs {
+			ctxs[i], cancels[i] = context.WithCancel(context.Background())
+		}
+		var flag atomic.Bool
+		var wg sync.WaitGroup
+		victim, spin := r.Intn(2), r.Intn(64)*20
+		wg.Add(1)
+		go func() {
+			defer wg.Done()
+			for !flag.Load() {
+			}
+			for s := 0; s < spin; s++ { // vary where in the call the cancellation lands
+				_ = flag.Load()
+			}
+			cancels[victim]()
+		}()
+		parent, cancelParent := context.Background(), context.CancelFunc(func() {})
+		if r.Intn(2) == 0 {
+			parent, cancelParent = context.WithCancel(parent)
+		}
+		flag.Store(true)
+		comb := CombineContext(parent, ctxs...)
+		for i := range ctxs { // the caller's slice is the caller's again
+			ctxs[i] = nil
+		}
+		wg.Wait()
+		select {
+		case <-comb.Done():
+			c11sinkV.Add(int64(len(comb.Err().Error())))
+		case <-time.After(5 * time.Second):
+			h.line("MONITOR C11 CombineContext result not cancelled although one of the others was (seed %d)", h.seed)
+			return
+		}
+		for _, c := range cancels {
+			c()
+		}
+		cancelParent()
+		if it%8 == 7 {
+			time.Sleep(200 * time.Microsecond) // let the after-func goroutines drain
+		}
+	}
+	h.count("c11_combinerace_iters", iters)
+}
+
+// ---------------------------------------------------------------------------------------------------------------
+// Callable: one Callable shared by several goroutines, each with its own reused args / results memory
+// ---------------------------------------------------------------------------------------------------------------
+func c11Callable(h *hctx, k int) {
+	rs := c11rngs(h, 4)
+	callable := NewCallable(func(a *c11val, b int) (*c11val, int) {
+		return &c11val{a: a.a + b, b: b, s: []int{a.b, b}}, a.a
+	})
+	var g c11group
+	for i := 0; i < 4; i++ {
+		r := rs[i]
+		g.run(func() {
+			args := make([]interface{}, 2, 4)
+			for j := 0; j < k/4; j++ {
+				args[0], args[1] = c11new(r), r.Intn(100)
+				var out *c11val
+				var n int
+				if err := Call(callable, CallArgs(args...), CallResults(&out, &n)); err != nil {
+					h.line("MONITOR C11 Call failed: %v", err)
+					return
+				}
+				c11read(out)
+				c11sinkV.Add(int64(n))
+				args[0], args[1] = nil, nil // the caller's slice, reused
+			}
+		})
+	}
+	g.wg.Wait()
+	h.count("c11_callable_calls", k)
 }
